@@ -341,9 +341,64 @@ def rule5_workers(ctx, fl):
     ctx.floor('C15.5', 8)
 
 
+def rule6_progress(ctx, fl):
+    ctx.doc('C15.6', 'no hang on malformed input, necessary part: every loop of the inlined CPU-list parser and of the worker/CPU fill '
+            'code has a loop-carried cursor or counter that grows by at least one on every path round the loop (the digit loop and '
+            'the comma loop consume a character, the range expansion appends an element and leaves when the list is full)')
+    v = ctx.view(BINDF, roots=['myth_get_available_cpus'], stops=('getenv', 'fprintf', 'fputc', 'sched_getaffinity', 'sysconf', 'getpid'),
+                 flavour=fl)
+    f = ctx.need_fn(v, 'myth_get_available_cpus')
+    n = 0
+    for lp in f.loops:
+        hb = f.blocks[lp['header']]
+        phis = [i for i in hb.insts if i.op == 'phi' and i.ty in ('i32', 'i64')]
+        best = None
+        exits = [i for b in lp['blocks'] for i in f.blocks[b].insts
+                 if i.op in ('br', 'switch') and 'cond' in i.d and any(sx not in lp['blocks'] for sx in f.blocks[b].succ)]
+
+        def feeds_exit(ph):
+            # the exit decision reads the cursor: compared directly, or used to address the character / slot that is tested
+            for e in exits:
+                st, seen = [e.d['cond']], set()
+                while st:
+                    r = st.pop()
+                    if not isinstance(r, str) or r in seen:
+                        continue
+                    seen.add(r)
+                    if f.strip(r) == ph.id:
+                        return True
+                    i = f.insts.get(r)
+                    if i is None or len(seen) > 400:
+                        continue
+                    if i.op == 'phi':
+                        st += [v_ for v_, b_ in i.d['incoming']]
+                    elif i.op == 'call':
+                        st += [a_ for a_ in i.args if isinstance(a_, str)]
+                    elif i.op == 'getelementptr':
+                        st.append(i.d['base'])
+                        st += [x_.get('p', x_.get('i')) for x_ in i.d['path'] if isinstance(x_.get('p', x_.get('i')), str)]
+                    else:
+                        st += [o for o in i.ops if isinstance(o, str)]
+            return False
+        for ph in phis:
+            ds = [lib.min_delta(f, val, ph.id) for val, b in ph.d['incoming'] if b in lp['blocks']]
+            if ds and all(d is not None and d >= 1 for d in ds) and feeds_exit(ph):
+                best = (ph, min(ds))
+                break
+        n += 1
+        line = max([i.line for b in lp['blocks'] for i in f.blocks[b].insts if i.op == 'br'] + [0])
+        ctx.ob('C15.6', 'loop at block %d advances on every iteration' % lp['header'], best is not None,
+               'a loop that can go round without consuming input or filling the output spins forever on a malformed (or perfectly '
+               'ordinary) MYTH_CPU_LIST', loc='%s:%d' % (BIND, min([i.line for b in lp['blocks'] for i in f.blocks[b].insts if i.line] or [0])),
+               detail=('cursor %s grows by >= %d' % (f.var(best[0].id) or best[0].id, best[1])) if best else
+               'no loop-carried integer that the exit test reads grows by >= 1 on every path to the latch')
+    ctx.floor('C15.6', 20)
+
+
 def run(ctx):
     for fl in flavours(ctx):
         ctx.unit = fl
+        rule6_progress(ctx, fl)
         rule1_init(ctx, fl)
         rule2_noabort(ctx, fl)
         rule3_bounds(ctx, fl)
@@ -370,6 +425,12 @@ MUTANTS = [
      'edits': [(BIND, "      c = parse_int(cs);\n      if (c == -1) return 0; /* NG */", "      c = parse_int(cs);\n      if (c == -1) return 0; /* NG */\n      if (c == 0) abort();")]},
     {'name': 'worker count default asserts on a negative value', 'expect': 'C15.2',
      'edits': [(INITH, "  if (nw <= 0) {\n    nw = myth_get_n_available_cpus();\n  }", "  assert(nw >= 0);\n  if (nw <= 0) {\n    nw = myth_get_n_available_cpus();\n  }")]},
+    {'name': 'digit loop does not consume the digit', 'expect': 'C15.6',
+     'edits': [(BIND, "    x = x * 10 + (cur_char(cs) - '0');\n    next_char(cs);", "    x = x * 10 + (cur_char(cs) - '0');\n    if (n_digits > 9) next_char(cs);")]},
+    {'name': 'comma loop re-parses without skipping the comma', 'expect': 'C15.6',
+     'edits': [(BIND, "  while (cur_char(cs) == ',') {\n    next_char(cs);\n    if (!parse_range(cs, il)) return 0;", "  while (cur_char(cs) == ',') {\n    if (cs->i > 0 && cs->a[cs->i - 1] == ',') cs->i--; else next_char(cs);\n    if (!parse_range(cs, il)) return 0;")]},
+    {'name': 'range expansion ignores a full list', 'expect': 'C15.6',
+     'edits': [(BIND, "    if (!int_list_add(il, x)) {\n      parse_error(cs, \n\t\t  \"myth_parse_cpu_list: too many numbers in MYTH_CPU_LIST\\n\");\n      return 0;\n    }", "    (void)int_list_add(il, x);")]},
     {'name': 'parser capacity given in bytes (seed C15/m2)', 'expect': 'C15.3',
      'edits': [(BIND, '    = myth_parse_cpu_list("MYTH_CPU_LIST", myth_cpu_list, N_MAX_CPUS);', '    = myth_parse_cpu_list("MYTH_CPU_LIST", myth_cpu_list, sizeof(myth_cpu_list));')]},
     {'name': 'int_list_add without the capacity test', 'expect': 'C15.3',
